@@ -15,39 +15,94 @@ sys.path.insert(0, HERE)
 EXIT_OK, EXIT_VIOLATION, EXIT_INCONCLUSIVE = 0, 1, 3
 
 
-def _worker(job):
+def _child(job, conn):
+    """one case in its own process; the parent enforces the time limit"""
     modname, case_id, tier, seed, replay_dir, case_timeout = job
     os.environ.setdefault("JAX_PLATFORMS", "cpu")
-    lines = []
+    os.environ["VERIF_DEADLINE"] = str(time.time() + case_timeout)
     import signal
 
-    class _CaseTimeout(BaseException):
-        pass
-
-    def _alarm(signum, frame):
-        raise _CaseTimeout()
-    signal.signal(signal.SIGALRM, _alarm)
-    signal.alarm(int(case_timeout))
-    t_start = time.time()
-    os.environ["VERIF_DEADLINE"] = str(t_start + case_timeout)
+    def _term(signum, frame):
+        raise SystemExit(111)
+    signal.signal(signal.SIGTERM, _term)
 
     def log(s):
-        lines.append(s)
         print(s, flush=True)
+    res = None
     try:
         mod = importlib.import_module(modname)
         res = mod.run_case(case_id, tier=tier, seed=seed, replay_dir=replay_dir, log=log)
-    except _CaseTimeout:
-        res = {"case": str(case_id), "status": "inconclusive", "obligations": [],
-               "notes": [f"case timeout after {case_timeout}s"], "wall_s": round(time.time() - t_start, 1)}
+    except SystemExit:
+        from jxs import harness
+        res = getattr(harness, "CURRENT", None)
+        if res is not None:
+            res = dict(res)
+            res["status"] = "inconclusive"
+            res.setdefault("notes", []).append(f"case timeout after {case_timeout}s (partial results kept)")
+        else:
+            res = {"case": str(case_id), "status": "inconclusive", "obligations": [],
+                   "notes": [f"case timeout after {case_timeout}s"], "wall_s": case_timeout}
         print(f"  [{case_id}] TIMEOUT after {case_timeout}s", flush=True)
     except BaseException as ex:  # noqa: BLE001 - a worker must always answer
         res = {"case": str(case_id), "status": "error", "obligations": [],
                "notes": [traceback.format_exc()], "wall_s": 0.0}
         print(f"  [{case_id}] WORKER ERROR {ex!r}", flush=True)
+    try:
+        conn.send(res)
     finally:
-        signal.alarm(0)
-    return res
+        conn.close()
+
+
+def run_jobs(jobs, nproc):
+    """own process pool: one fresh process per case, hard time limit enforced by the parent"""
+    ctx = mp.get_context("spawn")
+    pending = list(jobs)[::-1]
+    running = {}
+    results = []
+    while pending or running:
+        while pending and len(running) < nproc:
+            job = pending.pop()
+            pc, cc = ctx.Pipe(duplex=False)
+            pr = ctx.Process(target=_child, args=(job, cc), daemon=True)
+            pr.start()
+            cc.close()
+            running[pr.pid] = (pr, pc, job, time.time(), None)
+        time.sleep(0.05)
+        for pid in list(running):
+            pr, pc, job, t0, termed = running[pid]
+            got = None
+            try:
+                if pc.poll():
+                    got = pc.recv()
+            except (EOFError, OSError):
+                got = {"case": str(job[1]), "status": "error", "obligations": [],
+                       "notes": ["worker died without a result"], "wall_s": round(time.time() - t0, 1)}
+            if got is not None:
+                results.append(got)
+                pr.join(timeout=5)
+                if pr.is_alive():
+                    pr.kill()
+                del running[pid]
+                continue
+            if not pr.is_alive():
+                results.append({"case": str(job[1]), "status": "error", "obligations": [],
+                                "notes": [f"worker exited with code {pr.exitcode} without a result"],
+                                "wall_s": round(time.time() - t0, 1)})
+                del running[pid]
+                continue
+            el = time.time() - t0
+            if termed is None and el > job[5]:
+                pr.terminate()
+                running[pid] = (pr, pc, job, t0, time.time())
+            elif termed is not None and time.time() - termed > 15:
+                pr.kill()
+                pr.join(timeout=5)
+                print(f"  [{job[1]}] TIMEOUT after {job[5]}s (killed)", flush=True)
+                results.append({"case": str(job[1]), "status": "inconclusive", "obligations": [],
+                                "notes": [f"case timeout after {job[5]}s (process killed)"],
+                                "wall_s": round(el, 1)})
+                del running[pid]
+    return results
 
 
 def load_known(prop):
@@ -85,14 +140,7 @@ def main():
     cto = a.case_timeout or (300 if a.tier == "quick" else 2400)
     jobs = [(modname, c, a.tier, a.seed, replay_dir, cto) for c in cases]
     print(f"== {prop} tier={a.tier} seed={a.seed}: {len(jobs)} cases, probdiffeq from {repo_path}", flush=True)
-    results = []
-    if a.jobs <= 1 or len(jobs) <= 1:
-        results = [_worker(j) for j in jobs]
-    else:
-        ctx = mp.get_context("spawn")
-        with ctx.Pool(processes=min(a.jobs, len(jobs)), maxtasksperchild=4) as pool:
-            for r in pool.imap_unordered(_worker, jobs, chunksize=1):
-                results.append(r)
+    results = run_jobs(jobs, max(1, min(a.jobs, len(jobs))))
     results.sort(key=lambda r: str(r.get("case")))
     known = load_known(prop)
     violations, known_hits, inconclusive, errors = [], [], [], []
